@@ -285,7 +285,9 @@ def noise_gauss(a: Union[np.ndarray, List], snr=None, snr_in_db=True, std=1.0):
     if snr is not None:
         if not np.isscalar(snr):
             snr = np.asarray(snr)
-        sp = np.mean(a**2)  # signal power
+        # integer signals are squared in floating point (the square of a rate of 4e9 overflows int64)
+        squares = (a.astype(np.float64) if a.dtype.kind in 'iub' else a) ** 2
+        sp = np.mean(squares)  # signal power
 
         if snr_in_db is True:
             std_n = (sp / (10 ** (snr / 10))) ** 0.5
